@@ -171,8 +171,17 @@ def run(ctx):  # noqa: C901
     fin = rets[-1][2] if rets else None
     okv = fin is not None and fin[0] == "not" and fin[1][0] == "call" and fin[1][1] == "numpy.isclose" and kwarg(fin[1], "atol") == ("n", "tol")
     ctx.ob("R-TOL", hs, "SDP verdict compares with tol as absolute tolerance", bool(okv), "isclose(..., 0, atol=tol)" if okv else "final comparison does not use tol as atol")
-    ctx.notes.append("observation F13 (not statically decidable): has_symmetric_extension's SDP branch discriminates a single state, whose value is always 1, "
-                     "so that branch answers False for every input; recorded in DESIGN.md only")
+    # F13: a discrimination optimum of a literal ONE-element ensemble is 1 for every input (the single state is always identified), so a
+    # verdict computed from it is a constant function -- here `not isclose(1 - min(value, 1), 0)` == False for every rho
+    for callee in ("symmetric_extension_hierarchy.symmetric_extension_hierarchy", "state_distinguishability.state_distinguishability", "ppt_distinguishability.ppt_distinguishability"):
+        for c, cal in calls_from(m, hs, callee):
+            b = m.bind(c, cal.func)
+            a = b.get("states") if "states" in b else b.get("vectors")
+            single = isinstance(a, (ast.List, ast.Tuple)) and len(a.elts) == 1 and not isinstance(a.elts[0], ast.Starred)
+            ctx.ob("R-PRED", hs, "the extension verdict is not computed from the discrimination value of a one-element ensemble", not single,
+                   "ensemble has more than one member" if not single else
+                   f"`{unparse(c)[:80]}` discriminates the single state `{unparse(a.elts[0])}`: that optimum is 1 for every input (one state is always identified, its measurement operator is the "
+                   "identity), so the returned verdict does not depend on `rho` -- the SDP branch answers False for every state", c)
     # ---- separable ball ------------------------------------------------------------------------------
     sb = m.func("in_separable_ball.in_separable_ball")
     rets, Ns = return_terms(m, sb, inline=False)
